@@ -4,6 +4,7 @@ import Driver.BudgetOps
 import Driver.Strategies
 import Driver.Classify
 import Driver.RetryAfter
+import Driver.Probes
 
 def main (args : List String) : IO UInt32 := do
   match args with
@@ -13,6 +14,7 @@ def main (args : List String) : IO UInt32 := do
   | ["strategies"] => Driver.Strategies.main; return 0
   | ["classify"] => Driver.Classify.main; return 0
   | ["retryafter"] => Driver.RetryAfter.main; return 0
+  | ["probes"] => Driver.Probes.main; return 0
   | _ =>
     IO.eprintln "usage: driver loop|breaker|budget|strategies|classify|retryafter  < lines"
     return 2
